@@ -768,9 +768,9 @@ def run(scn, ch, log=False):
             history), whatever its symptom:
               * a Set-Cookie of the family used an off-lattice spelling (extras of gen()) or an Expires
                 date equal to the epoch (family_syntax, noted when the cookie was set);
-              * two cookies of the family have paths differing only by trailing slashes;
-              * a session cookie of the family replaced (5.3 step 11) a cookie that carried a deadline,
-                and that deadline has passed since."""
+              * two cookies of the family have paths differing only by trailing slashes.
+            (A session cookie that replaced a cookie with a deadline was a third class, C16-F3, until
+            the jar was repaired; such histories are now judged like any other.)"""
             syn = family_syntax.get((c.domain, c.name))
             if syn:
                 return syn
@@ -778,20 +778,6 @@ def run(scn, ch, log=False):
                 for y in mem[i + 1:]:
                     if x.path != y.path and x.path.rstrip("/") == y.path.rstrip("/"):
                         return "same_name_path_differs_by_trailing_slash"
-            t_max = state["tmax"]  # the wall clock may have gone back since
-            for x in mem:
-                if x.persistent:
-                    continue  # its own deadline counts
-                t = pred.get(x.tag)
-                while t is not None:  # the cookies it replaced, nearest first
-                    y = cookie_of(t)
-                    if y is None:
-                        break
-                    if y.persistent:
-                        if y.expiry <= t_max:
-                            return "replaced_cookie_deadline_passed"
-                        break
-                    t = pred.get(t)
             return None
 
         def oversend_key(c, fate, why):
